@@ -113,6 +113,68 @@ def run(ctx, ck):
         ns = assigns_to_attr(g, 'self.n_segments')
         ck.ob('R-PAIR.one-per-iteration', q + '|n_segments', len(ns) == 1 and norm(ns[0].value) == 'n_segments',
               g.loc(), 'self.n_segments is the requested count')
+    # closing point == the loop formula evaluated at the end of the curve (i = n_segments):
+    # symbolic substitution of the loop's own statements, compared with the statements after the loop
+    from ..poly import poly_atoms, single_atom, subst_names, Poly
+    for q in ('mininec.Arc.__init__', 'mininec.Helix.__init__'):
+        g = m.func(q)
+        ls = [l for l in loops_in(g.node) if isinstance(l, ast.For)]
+        if len(ls) != 1 or not isinstance(ls[0].target, ast.Name):
+            continue
+        l = ls[0]
+        body = g.body()
+        after = body[body.index(l) + 1:]
+        post = []
+        for st in after:
+            post.append(st)
+            if isinstance(st, ast.Expr) and 'segends.append' in norm(st):
+                break
+        post_targets = {t.id for st in post for n_ in ast.walk(st) if isinstance(n_, ast.Assign)
+                        for t in n_.targets if isinstance(t, ast.Name)}
+        env = {l.target.id: ast.Name(id='n_segments', ctx=ast.Load())}
+        atoms = {}
+
+        def transform(stmts):
+            out = []
+            for st in stmts:
+                if isinstance(st, ast.Assign) and len(st.targets) == 1 and isinstance(st.targets[0], ast.Name):
+                    v = st.targets[0].id
+                    if v not in post_targets:
+                        try:
+                            pv = poly_atoms(st.value, env, atoms)
+                            at = single_atom(pv, atoms)
+                        except Exception:
+                            at = None
+                        env[v] = at if at is not None else subst_names(st.value, env)
+                        continue
+                    out.append(norm(ast.Assign(targets=st.targets, value=subst_names(st.value, env), lineno=0)))
+                elif isinstance(st, ast.If):
+                    out.append('if %s: %s' % (norm(subst_names(st.test, env)), ' ; '.join(transform(st.body))))
+                    if st.orelse:
+                        out.append('else: %s' % ' ; '.join(transform(st.orelse)))
+                else:
+                    out.append(norm(subst_names(st, env)))
+            return out
+        expected = transform(l.body)
+
+        def plain(stmts):
+            out = []
+            for st in stmts:
+                if isinstance(st, ast.If):
+                    out.append('if %s: %s' % (norm(st.test), ' ; '.join(plain(st.body))))
+                    if st.orelse:
+                        out.append('else: %s' % ' ; '.join(plain(st.orelse)))
+                else:
+                    out.append(norm(st))
+            return out
+        actual = plain(post)
+        ok = expected == actual
+        diff = [(e_, a_) for e_, a_ in zip(expected, actual) if e_ != a_]
+        ck.ob('R-SIB.closing-point', q, ok, g.loc(post[0] if post else l),
+              'closing end point = loop formula at i = n_segments (%d statements)' % len(actual) if ok else
+              'closing end point differs from the loop formula at the end of the curve: expected `%s`, found `%s`'
+              % (diff[0] if diff else (expected, actual)))
+    ck.rule('R-SIB.closing-point', 'closing end point of a curve = its loop formula at i = n_segments')
     cc = m.func('mininec.Curve.compute_segments')
     cfl2 = ctx.flow(cc)
     ls = [l for l in loops_in(cc.node) if isinstance(l, ast.For)]
